@@ -29,7 +29,7 @@ var (
 func replayFsck(c *core.Ctx, lfsBin string, b *behaviour, idx int) (*core.Violation, error) {
 	root := filepath.Join(c.Work, fmt.Sprintf("w%d", idx))
 	defer os.RemoveAll(root)
-	w, err := NewWorldOpts(root, filepath.Dir(lfsBin), c.Seed, WorldOpts{CommitAttrs: true, RawBig: b.hash%2 == 1})
+	w, err := NewWorldOpts(root, filepath.Dir(lfsBin), c.Seed, WorldOpts{CommitAttrs: true, RawBig: b.hash%2 == 1, AttrsBig: (b.hash/2)%2 == 1})
 	if err != nil {
 		return nil, err
 	}
